@@ -123,3 +123,161 @@ def enum_controller_roundtrip(H, case):
     rw.check_controllers(H, m, m2)
     H.check("is_member", isinstance(m2.controller_values[name], type(m).controllers[name].value_type))
     H.cover("reached")
+
+
+def _pattern_shape_cases(tier):
+    return [("2x2", (2, 2))] if tier == "quick" else [("2x2", (2, 2)), ("1x1", (1, 1)), ("3x2", (3, 2)), ("1x5", (1, 5))]
+
+
+@contract(
+    "pattern_slots_roundtrip", ["C01"],
+    targets=_WRITER_TARGETS[:3] + ["rv.pattern:Pattern.iff_chunks", "rv.pattern:PatternClone.iff_chunks", "rv.pattern:Pattern.raw_data",
+                                   "rv.readers.pattern:PatternReader.process_*", "rv.readers.pattern:PatternCloneReader.process_*",
+                                   "rv.readers.sunvox:SunVoxReader.process_PDTA", "rv.readers.sunvox:SunVoxReader.process_PPAR",
+                                   "rv.readers.sunvox:SunVoxReader.process_PEND", "rv.project:Project.attach_pattern"],
+    cases=_pattern_shape_cases,
+)
+def pattern_slots_roundtrip(H, shape):
+    """Pattern list [pattern, empty, clone, pattern(named)] with every numeric field and every note cell
+    symbolic: the loaded list has the same length, the same kind of entry at every position (empty
+    positions included) and equal contents; loaded patterns belong to the loaded project."""
+    lines, tracks = shape
+    p = Project()
+    a = Pattern(lines=lines, tracks=tracks)
+    rw.sym_pattern(H, a, "a.")
+    c = PatternClone(source=0)
+    rw.sym_clone(H, c)
+    b = Pattern(lines=1, tracks=1, name="second pattern")
+    rw.sym_pattern(H, b, "b.")
+    for x in (a, None, c, b):
+        p.attach_pattern(x)
+    q = rw.read_back(H, rw.write_container(H, p))
+    H.check("pattern_list_length", len(q.patterns) == 4)
+    if len(q.patterns) != 4:
+        return
+    rw.check_pattern(H, a, q.patterns[0], "slot0")
+    H.check("slot1.empty", q.patterns[1] is None)
+    rw.check_clone(H, c, q.patterns[2], "slot2")
+    rw.check_pattern(H, b, q.patterns[3], "slot3")
+    H.check("ownership", all(x is None or x.project is q for x in q.patterns))
+    H.cover("reached")
+
+
+def _module_slot_cases(tier):
+    shapes = ["OAeA", "OeeA", "OAA"] if tier == "quick" else ["OAeA", "OeeA", "OAA", "OeAeA", "OAeeA"]
+    return [(s, s) for s in shapes]
+
+
+@contract(
+    "module_slots_roundtrip", ["C01", "C14"], targets=_WRITER_TARGETS + _READER_TARGETS, cases=_module_slot_cases,
+)
+def module_slots_roundtrip(H, shape):
+    """Module list with empty positions in the middle (built through the API), each amplifier with a
+    symbolic volume: position by position the loaded list equals the original (None stays None), and
+    index / parent agree with the position."""
+    from rv.modules.amplifier import Amplifier
+
+    p = Project()
+    mods = {}
+    for i, ch in enumerate(shape):
+        if i == 0:
+            continue
+        if ch == "e":
+            p.attach_module(None)
+        else:
+            m = Amplifier(name=f"amp {i}")
+            m.controller_values["volume"] = H.int(f"vol{i}", 0, 1024)
+            p.modules.append(None)  # reserve the slot so that gap filling does not move it
+            p.modules.pop()
+            p.attach_module(m, loading=True)
+            mods[i] = m
+    H.check("built_as_described", len(p.modules) == len(shape) and all((p.modules[i] is None) == (ch == "e") for i, ch in enumerate(shape)))
+    q = rw.read_back(H, rw.write_container(H, p))
+    H.check("module_list_length", len(q.modules) == len(shape))
+    for i, ch in enumerate(shape):
+        if i >= len(q.modules):
+            break
+        m2 = q.modules[i]
+        if ch == "e":
+            H.check(f"slot[{i}].empty", m2 is None)
+        elif ch == "O":
+            H.check(f"slot[{i}].output", type(m2) is Output and q.output is m2)
+        else:
+            ok = type(m2) is Amplifier
+            H.check(f"slot[{i}].same_class", ok)
+            if ok:
+                H.check(f"slot[{i}].volume", m2.controller_values["volume"] == mods[i].controller_values["volume"])
+                H.check(f"slot[{i}].name", m2.name == mods[i].name)
+                H.check(f"slot[{i}].index_parent", m2.index == i and m2.parent is q)
+    H.cover("reached")
+
+
+# ------------------------------------------------------------------------------- text (bounded catalogue)
+
+_CLASS_CP = {1: [0x01, 0x41, 0x7F], 2: [0x80, 0xE9, 0x7FF], 3: [0x800, 0x20AC, 0xD7FF, 0xE000, 0xFFFF], 4: [0x10000, 0x1F600, 0x10FFFF]}
+
+
+def _name_catalogue(tier):
+    """Names described by UTF-8 length-class patterns whose total length ranges across the 32-byte
+    limit, with the straddling character of every class at every possible offset."""
+    names = ["", "x", "Amplifier", "plain ascii name that is longer than thirty-two bytes"]
+    for last_class in (1, 2, 3, 4):
+        for fill_class in (1, 2, 3, 4):
+            for lead in range(0, fill_class):  # shift the phase of the filler sequence
+                for total_before in range(26, 33):
+                    s = "a" * lead
+                    k = 0
+                    while len(s.encode()) + fill_class <= total_before:
+                        s += chr(_CLASS_CP[fill_class][k % len(_CLASS_CP[fill_class])])
+                        k += 1
+                    s += "b" * (total_before - len(s.encode()))
+                    for cp in _CLASS_CP[last_class]:
+                        names.append(s + chr(cp) + "tail")
+    if tier == "quick":
+        names = names[::5] + names[:4]
+    out = []
+    seen = set()
+    for n in names:
+        if n not in seen and "\0" not in n:
+            seen.add(n)
+            out.append(n)
+    return out
+
+
+@contract(
+    "names_roundtrip", ["C01", "C03"], kind="bounded",
+    targets=["rv.modules.module:Module.iff_chunks", "rv.readers.module:ModuleReader.process_SNAM", "rv.readers.sunvox:SunVoxReader.process_NAME",
+             "rv.readers.pattern:PatternReader.process_PNME", "rv.readers.module:ModuleReader.process_SMIN"],
+    bound="a catalogue of names generated from UTF-8 length-class patterns (every class as filler, every class straddling byte 32 at every offset 26..32, boundary code points of each class); native evaluation",
+)
+def names_roundtrip(H, _):
+    """Text fields: module name == longest prefix whose UTF-8 form fits 32 bytes (and the written file
+    loads); project name, pattern name and MIDI-out name are preserved exactly."""
+    from rv.modules.amplifier import Amplifier
+    from spec import format as F
+
+    import io
+    from rv.readers.reader import read_sunvox_file
+
+    for name in _name_catalogue(getattr(H, "tier", "quick")):
+        p = Project()
+        m = Amplifier(name=name)
+        if name:
+            m.midi_out_name = name
+        p.attach_module(m)
+        p.name = name
+        pat = Pattern(lines=1, tracks=1, name=name)
+        p.attach_pattern(pat)
+        want = F.dec_cstring(F.enc_name32(name))
+        try:
+            data = p.read()
+            q = read_sunvox_file(io.BytesIO(data))
+            H.check("written_file_loads", True)
+            H.check("module_name_is_longest_fitting_prefix", q.modules[1].name == want, witness={"name": name, "got": q.modules[1].name, "want": want})
+            H.check("project_name_exact", q.name == name, witness=name)
+            H.check("pattern_name_exact", q.patterns[0].name == name, witness=name)
+            H.check("midi_out_name_exact", q.modules[1].midi_out_name == (name if name else None), witness=name)
+            snam = [c[1] for c in F.parse_stream(data) if bytes(c[0]) == b"SNAM"][1]
+            H.check("SNAM_is_spec_encoding", snam == F.enc_name32(name), witness=name)
+        except Exception as e:  # noqa
+            H.check("written_file_loads", False, witness={"name": name, "error": f"{type(e).__name__}: {e}"})
